@@ -35,6 +35,8 @@ type rec struct {
 	KKey     string            `json:"kkey"`  // the kept content key a stale_kept signature disagrees on
 	Src      map[string]string `json:"src"`   // where the keys of a server are: "db" | "fetcher"
 	Vol      bool              `json:"vol"`   // the fetcher volunteers fresh copies of database-held keys
+	Fail     string            `json:"fail"`  // "none" | "db" | "fetcher": the key source that answers with an error
+	MapSt    string            `json:"mapst"` // pseudo-ID joins: state of the mxid_mapping ("ok" | "missing" | "corrupt")
 	Required []string          `json:"required"`
 	Strict   bool              `json:"strict"`
 	Verdict  bool              `json:"verdict"`
@@ -69,6 +71,7 @@ type world struct {
 	// set when PDU.Sign and the independent signing disagree
 	signMismatch string
 	parseErr     error
+	evJSON       []byte // the built event without signatures
 }
 
 // signingName / key material of abstract server s in this scenario. In pseudo-ID rooms s1 and s2 (when it is the
@@ -93,11 +96,15 @@ type keyUse struct {
 type memDB struct {
 	keys      map[gmsl.PublicKeyLookupRequest]gmsl.PublicKeyLookupResult
 	volunteer bool
+	failing   bool // every lookup answers with an error
 }
 
 func (d *memDB) FetcherName() string { return "memDB" }
 func (d *memDB) FetchKeys(_ context.Context, reqs map[gmsl.PublicKeyLookupRequest]spec.Timestamp) (map[gmsl.PublicKeyLookupRequest]gmsl.PublicKeyLookupResult, error) {
 	out := map[gmsl.PublicKeyLookupRequest]gmsl.PublicKeyLookupResult{}
+	if d.failing {
+		return nil, fmt.Errorf("key source unavailable")
+	}
 	if d.volunteer {
 		// as a notary or a /key/v2/server reply listing several keys may: everything it has, asked for or not
 		for rq, k := range d.keys {
@@ -346,6 +353,27 @@ func (w *world) signaturesFor(impl gmsl.IRoomVersion, evJSON []byte, s, state st
 	case "exp_later":
 		w.putKey(s, name, id1, pub(k1), 0, w.ts+hour)
 		return []sigEntry{good(id1, k1)}
+	case "exp_eq": // data against data: exactly at the boundary
+		w.putKey(s, name, id1, pub(k1), 0, w.ts)
+		return []sigEntry{good(id1, k1)}
+	case "exp_next":
+		w.putKey(s, name, id1, pub(k1), 0, w.ts+1)
+		return []sigEntry{good(id1, k1)}
+	case "vu_m1":
+		w.putKey(s, name, id1, pub(k1), w.ts-1, 0)
+		return []sigEntry{good(id1, k1)}
+	case "malformed", "mal_good":
+		current(id1, k1)
+		bad := sigEntry{name, id1, []string{"not base64 !!", "c2hvcnQ", "", strings.Repeat("A", 90)}[idx%4]}
+		if state == "malformed" {
+			return []sigEntry{bad}
+		}
+		if userKey {
+			bad.id = id2
+			return []sigEntry{bad, good(id1, k1)}
+		}
+		current(id2, k2)
+		return []sigEntry{bad, good(id2, k2)}
 	case "corrupt":
 		current(id1, k1)
 		e := good(id1, k1)
@@ -437,6 +465,10 @@ func (w *world) buildEvent(impl gmsl.IRoomVersion) []byte {
 				pe.Redacts = "$" + base64.RawURLEncoding.EncodeToString(make([]byte, 32))
 			}
 			pe.Content = spec.RawJSON(`{"redacts":` + q(pe.Redacts) + `,"reason":"spam"}`)
+		case "org.example.member":
+			sk := user("bob", "s2")
+			pe.StateKey = &sk
+			pe.Content = spec.RawJSON(`{"membership":"invite","join_authorised_via_users_server":` + q("@carol:"+serverName("s3")) + `,"body":"not a membership event"}`)
 		default:
 			panic("harness: unknown event type " + r.EType)
 		}
@@ -464,8 +496,13 @@ func (w *world) buildEvent(impl gmsl.IRoomVersion) []byte {
 				panic(err)
 			}
 			w.db.put(hs, "ed25519:k1", pub(hk), w.ts+hour, 0)
+			if r.MapSt == "corrupt" {
+				m.Signatures[spec.ServerName(hs)]["ed25519:k1"][0] ^= 1
+			}
 			mb, _ := json.Marshal(m)
-			content["mxid_mapping"] = mb
+			if r.MapSt != "missing" {
+				content["mxid_mapping"] = mb
+			}
 		}
 		cb, _ := json.Marshal(content)
 		pe.Content = spec.RawJSON(cb)
@@ -483,15 +520,21 @@ func (w *world) buildEvent(impl gmsl.IRoomVersion) []byte {
 }
 
 func (w *world) compose(impl gmsl.IRoomVersion, idx int) gmsl.PDU {
-	evJSON := w.buildEvent(impl)
+	w.evJSON = w.buildEvent(impl)
+	return w.present(impl, w.r.Sig, idx)
+}
+
+// present puts the signatures of the given states on the built event and presents it to the verifier.
+func (w *world) present(impl gmsl.IRoomVersion, states map[string]string, idx int) gmsl.PDU {
+	evJSON := w.evJSON
 	sigs := map[string]map[string]string{}
-	servers := make([]string, 0, len(w.r.Sig))
-	for s := range w.r.Sig {
+	servers := make([]string, 0, len(states))
+	for s := range states {
 		servers = append(servers, s)
 	}
 	sort.Strings(servers)
 	for _, s := range servers {
-		for _, e := range w.signaturesFor(impl, evJSON, s, w.r.Sig[s], idx) {
+		for _, e := range w.signaturesFor(impl, evJSON, s, states[s], idx) {
 			if sigs[e.name] == nil {
 				sigs[e.name] = map[string]string{}
 			}
@@ -526,6 +569,7 @@ func userIDForSender(_ spec.RoomID, senderID spec.SenderID) (*spec.UserID, error
 
 func newWorld(r *rec, seed int64) *world {
 	w := &world{r: r, db: &memDB{keys: map[gmsl.PublicKeyLookupRequest]gmsl.PublicKeyLookupResult{}}}
+	w.db.failing = r.Fail == "db"
 	for _, where := range r.Src {
 		if where == "fetcher" || r.Vol {
 			w.fetch = &memDB{keys: map[gmsl.PublicKeyLookupRequest]gmsl.PublicKeyLookupResult{}, volunteer: r.Vol}
@@ -608,6 +652,15 @@ func class(r *rec) string {
 	if r.Pres == "received" {
 		keys += "/received-redacted"
 	}
+	if other == "malformed" {
+		keys += "/others=malformed"
+	}
+	if r.Fail != "" && r.Fail != "none" {
+		keys += "/failing=" + r.Fail
+	}
+	if r.MapSt != "" && r.MapSt != "ok" {
+		keys += "/mxid_mapping=" + r.MapSt
+	}
 	return fmt.Sprintf("%s%s/%s/%s/time=%s%s", kind, via, strings.Join(st, ","), strict, r.TM, keys)
 }
 
@@ -649,6 +702,9 @@ func replayOne(i int, raw json.RawMessage, seed int64) hx.Result {
 	if r.Pres == "received" && !p.Redacted() {
 		return hx.Result{OK: false, NT: cls, Key: "C06/received/not-redacted", What: "the event with a key added in transit did not come back redacted (C04's subject)"}
 	}
+	if w.fetch != nil {
+		w.fetch.failing = r.Fail == "fetcher"
+	}
 	errOne := gmsl.VerifyEventSignatures(ctx, p, ring, userIDForSender)
 	if (errOne == nil) != r.Verdict {
 		return hx.Result{OK: false, NT: cls, Key: fmt.Sprintf("C06/verify/%s:model=%v", cls, r.Verdict),
@@ -656,21 +712,94 @@ func replayOne(i int, raw json.RawMessage, seed int64) hx.Result {
 				r.Ver, r.Kind, r.Required, r.Sig, r.Src, r.Vol, r.TM, r.Verdict, errOne),
 			Want: r.Verdict, Got: fmt.Sprint(errOne), Extra: string(p.JSON())}
 	}
+	// the same object a second time: nothing the first call cached changes the verdict
+	if again := gmsl.VerifyEventSignatures(ctx, p, ring, userIDForSender); (again == nil) != r.Verdict {
+		return hx.Result{OK: false, NT: cls, Key: fmt.Sprintf("C06/verify-twice/%s:model=%v", cls, r.Verdict),
+			What: fmt.Sprintf("a second VerifyEventSignatures on the same event object gives another verdict (room version %s): %v", r.Ver, again)}
+	}
 	// the batch form: between an event that verifies and one that does not
 	good, bad := w.controls(impl)
 	errs := gmsl.VerifyAllEventSignatures(ctx, []gmsl.PDU{good, p, bad}, ring, userIDForSender)
 	if len(errs) != 3 {
 		return hx.Result{OK: false, NT: cls, Key: "C06/verify-all/length", What: fmt.Sprintf("VerifyAllEventSignatures returned %d results for 3 events", len(errs))}
 	}
-	if errs[0] != nil || errs[2] == nil || (errs[1] == nil) != r.Verdict {
+	wantGood := r.Fail != "db" || isPseudo(r.Ver)
+	if (errs[0] == nil) != wantGood || errs[2] == nil || (errs[1] == nil) != r.Verdict {
 		return hx.Result{OK: false, NT: cls, Key: fmt.Sprintf("C06/verify-all/%s:model=%v", cls, r.Verdict),
 			What: fmt.Sprintf("VerifyAllEventSignatures over [valid, scenario, unsigned] (room version %s): want [nil, valid=%v, error], got %v", r.Ver, r.Verdict, errs),
 			Want: r.Verdict, Got: fmt.Sprint(errs)}
+	}
+	if res := w.twins(impl, ring, p, cls, i); res != nil {
+		return *res
 	}
 	if w.signMismatch != "" {
 		return hx.Result{OK: false, NT: cls, Key: "C06/signed-form/" + r.EType, What: w.signMismatch}
 	}
 	return hx.Result{OK: true, NT: cls + "/others=" + others(&r)}
+}
+
+// twins: a batch holding the scenario's event and a second event with the SAME event ID (the same event, other
+// signatures) whose signatures have the opposite validity, in both orders: every position gets its own verdict.
+func (w *world) twins(impl gmsl.IRoomVersion, ring gmsl.KeyRing, p gmsl.PDU, cls string, idx int) *hx.Result {
+	r := w.r
+	if r.TM != "normal" || (r.Fail != "" && r.Fail != "none") || (r.MapSt != "" && r.MapSt != "ok") {
+		return nil
+	}
+	states := map[string]string{}
+	if r.Verdict {
+		for s, st := range r.Sig { // nobody's signature verifies
+			states[s] = "absent"
+			if st != "absent" {
+				states[s] = "corrupt"
+			}
+		}
+	} else {
+		req := map[string]bool{}
+		for _, s := range r.Required {
+			req[s] = true
+		}
+		for s, st := range r.Sig { // every required server signs well; possible where the keys are as usual
+			states[s] = st
+			if req[s] {
+				switch st {
+				case "ok", "two_onebad", "mal_good":
+				case "absent", "corrupt", "stale", "stale_kept", "wrongkey", "unknownkey", "malformed":
+					states[s] = "ok"
+				default:
+					return nil // the scenario's key entries of this server make no signature of it verify
+				}
+			}
+		}
+	}
+	keep := w.signMismatch
+	twin := w.present(impl, states, idx+1)
+	w.signMismatch = keep
+	if twin == nil {
+		return nil
+	}
+	idP, idT := p.EventID(), twin.EventID()
+	if idP != idT {
+		panic("harness: the twin event has another event ID: " + idP + " vs " + idT)
+	}
+	ctx := context.Background()
+	for _, order := range [][]gmsl.PDU{{p, twin}, {twin, p}, {p, twin, p}} {
+		errs := gmsl.VerifyAllEventSignatures(ctx, order, ring, userIDForSender)
+		if len(errs) != len(order) {
+			return &hx.Result{OK: false, NT: cls, Key: "C06/verify-all/length", What: fmt.Sprintf("VerifyAllEventSignatures returned %d results for %d events", len(errs), len(order))}
+		}
+		for n, e := range order {
+			want := r.Verdict
+			if e == twin {
+				want = !r.Verdict
+			}
+			if (errs[n] == nil) != want {
+				return &hx.Result{OK: false, NT: cls, Key: fmt.Sprintf("C06/verify-all/same-id/%s:model=%v", cls, r.Verdict),
+					What: fmt.Sprintf("VerifyAllEventSignatures on a batch holding the event twice under one event ID %s, once validly signed and once not (room version %s): position %d of %d must be valid=%v, got %v (all: %v)",
+						idP, r.Ver, n+1, len(order), want, errs[n], errs)}
+			}
+		}
+	}
+	return nil
 }
 
 // controls builds a plain message event signed by its sender's server (verifies) and the same without signatures.
